@@ -46,6 +46,19 @@ func (w *world) checkStability() []Violation {
 		if r.write && !bytes.Equal(cur.PData, r.snap.PData) {
 			diff = append(diff, "platform_data")
 		}
+		foreign := cur.ReplyID == 0x8003
+		for _, a := range w.plan.Actors {
+			for _, op := range a.Ops {
+				if op.K == "call" && op.Call != nil && op.Call.Cmd == cur.ReplyID {
+					foreign = true
+				}
+			}
+		}
+		if !r.write && cur.ReplyID != r.snap.ReplyID && foreign {
+			// the library encodes a message's own reply through the message's header (reply id, platform serial and
+			// length change then, by design); a re-request or a platform command is never a delivered message's own reply
+			diff = append(diff, fmt.Sprintf("header_used_for_another_frame(%#04x)", cur.ReplyID))
+		}
 		if len(diff) > 0 {
 			out = append(out, Violation{Prop: "C09", Rule: "C09.changed_after_delivery",
 				Sig:  "C09.changed_after_delivery:" + r.who + ":" + strings.Join(diff, "+"),
